@@ -175,13 +175,11 @@ def calc_explicit_padding(input_size, stride, filter_size, pad_before, pad_after
     Based on explicit padding provided in a PAD operation, returns the corresponding hardware padding
     that provides equivalent results.
     """
-    total_padding = needed_total_padding(input_size, stride, filter_size)
-
-    # The bottom/right padding might need downward adjustment depending on stride/input size
-    total_minus_before = total_padding - pad_before
-    output_pad_after = pad_after
-    while output_pad_after > 0 and output_pad_after % stride != total_minus_before % stride:
-        output_pad_after -= 1
+    # The bottom/right padding might need downward adjustment depending on stride/input size: only what the kernel
+    # reaches at its last position is padding that is used
+    output_size = (input_size + pad_before + pad_after - filter_size) // stride + 1
+    last_kernel_end = (output_size - 1) * stride + filter_size - pad_before
+    output_pad_after = max(0, min(pad_after, last_kernel_end - input_size))
     return pad_before, output_pad_after
 
 
